@@ -9,6 +9,7 @@ import itertools
 import numpy as np
 
 from mc.core import Sub, ok, trivial, viol
+from mc import alphabet as A
 from mc import tol
 from mc.props import c01
 from mc.refmodels import mixtures as M
@@ -137,6 +138,10 @@ def run_builtin_pa(key):
         x //= 3
     sp = np.array(digits[:n]).reshape(1, K, T)
     se = np.array(digits[n:]).reshape(1, K, T)
+    if K >= 5:
+        # continuous tables (no ties between the 120 arrangements); idx is the table number
+        r_ = A.rng(0, 'c05pa5', K, T, idx)
+        sp, se = 3.0 * r_.standard_normal((1, K, T)), 3.0 * r_.standard_normal((1, K, T))
     w = np.full((K, 1), 1.0 / K) if wkind == 'uniform' else \
         (np.arange(1, K + 1, dtype=float) / np.arange(1, K + 1).sum())[:, None]
     # criterion of every arrangement (reference, loops): ties make the choice order dependent
@@ -154,7 +159,10 @@ def run_builtin_pa(key):
     except Exception as e:  # noqa
         return viol(f'built-in alignment raised {e!r}')
     n_ = 0
-    for perm in itertools.permutations(range(K)):
+    relab = list(itertools.permutations(range(K))) if K <= 3 else \
+        [tuple(np.roll(np.arange(K), s_)) for s_ in range(1, K)] + \
+        [tuple(range(K - 2)) + (K - 1, K - 2), (1, 0) + tuple(range(2, K)), tuple(range(K))[::-1]]
+    for perm in relab:
         perm = list(perm)
         try:
             got = f_pa(weight=np.ascontiguousarray(w[perm]), spatial_log_pdf=np.ascontiguousarray(sp[:, perm]),
@@ -239,6 +247,9 @@ def subchecks(tier, seed):
                     if K == 3 and T == 2 and (idx % 7 or w == 'graded'):
                         continue
                     yield (K, T, idx, w)
+        # five classes (120 arrangements): a cross section of the tables, cyclic shifts and transpositions
+        for idx in range(120 if not thorough else 1000):
+            yield (5, 2, idx, 'uniform')
     return [Sub('relabelling', names, cases, run,
                 bound=dict(deviations=d, K=[2, 3, 4] + ([5] if thorough else []), iterations=[1, 2, 5, 20]),
                 min_nontrivial=300),
